@@ -18,6 +18,7 @@ import (
 //   - a range variable: each#k(e) / each#v(e) for the key / value of `range e`;
 //   - anything else (accumulators, variables assigned more than once, closure parameters): local1, local2, ... in
 //     order of declaration.
+//
 // Parameters, results, the receiver, fields, functions and package names keep their names.
 func alphaLocals(fset *token.FileSet, fd *ast.FuncDecl) {
 	if fd == nil || fd.Body == nil {
